@@ -62,6 +62,8 @@ func genC13(g *Gen) any {
 	sc := &C13Scenario{PatKey: g.Rng.Uint64(), ResetLink: -1}
 	sc.Sess = SessParams{Method: byte(g.Int(0, 3)), NConn: g.Int(1, 4), InactS: 3600, Partial: g.Bool(0.3)}
 	sc.Sess.WireLimit = g.Pick(minWireLimit, minWireLimit, 700, 1200, 16401, 0)
+	// datagram (UDP) mode: the sender side numbers its frames the same way
+	sc.Sess.Unordered = g.Bool(0.2)
 	limit := sc.Sess.WireLimit
 	if limit == 0 {
 		limit = 16640
@@ -79,8 +81,8 @@ func genC13(g *Gen) any {
 				nops := g.Int(1, 6)
 				for j := 0; j < nops; j++ {
 					n := g.Pick(opHdr, opHdr+1, 40, maxPayload-1, maxPayload, maxPayload+1, 2*maxPayload+5, g.Int(opHdr, 3*maxPayload))
-					if w.ReadFrom && n > maxPayload {
-						n = maxPayload // one Read = one frame
+					if (w.ReadFrom || sc.Sess.Unordered) && n > maxPayload {
+						n = maxPayload // one Read = one frame; a datagram is never split
 					}
 					if n < opHdr {
 						n = opHdr
